@@ -52,7 +52,7 @@ fn param(s: &mut S, me: &str) -> String {
         7 => "n0".into(),
         8 => "n1,n1,n2".into(),
         9 => format!("{},n0,{}", me, me),
-        10 => "nobody".into(),
+        10 => ["nobody", "gone", "n4", "n4r", "2", "1"][s.pick(6)].into(),
         11 => "".into(),
         12 => long(1900, 'x'),
         13 => format!("#{}", long(1200, 'c')),
@@ -207,6 +207,12 @@ fn build_scene(seeds: &[u16]) -> Scene {
     let b4 = sc.bystanders[4].0;
     sc.send(b4, "AWAY :scene away");
     sc.send(b4, "MODE n4 +iw");
+    // history: n4 changes its nick (keeping +w), and a user "gone" has come and left
+    sc.send(b4, "NICK n4r");
+    sc.bystanders[4].1 = "n4r".into();
+    let g = sc.reg("gone");
+    sc.send(g, "JOIN #c1");
+    sc.send(g, "QUIT");
     // the fuzzed connection
     let f = sc.w.connect();
     sc.justified_eof.push(false);
@@ -296,6 +302,23 @@ fn liveness(sc: &mut Scene, tick: usize) -> Result<(), Viol> {
                 "C05.bystander_stalled",
                 "bystander-no-pong",
                 format!("bystander {} (c{}) no longer answers PING (role {})", n, c, sc.role),
+            )
+            .with_transcript(sc.log.iter().rev().take(40).rev().cloned().collect()));
+        }
+    }
+    // an operator's WALLOPS still reaches the +w bystander (n4r) - exercises another fan-out
+    let (oc, wc) = (sc.bystanders[1].0, sc.bystanders[4].0);
+    if !sc.w.conns[oc].eof && !sc.w.conns[wc].eof {
+        let text = format!("wallops{}", tick);
+        let r = sc.send(oc, &format!("WALLOPS :{}", text));
+        check_health(sc, "liveness WALLOPS", false)?;
+        let refused = r.iter().any(|(cc, ls)| *cc == oc && ls.iter().any(|l| l.contains(" 481 ")));
+        let got = r.iter().any(|(cc, ls)| *cc == wc && ls.iter().any(|l| l.contains(" WALLOPS ") && l.ends_with(&text)));
+        if !refused && !got && !sc.w.conns[oc].eof && !sc.w.conns[wc].eof {
+            return Err(Viol::new(
+                "C05.bystander_deprived",
+                "bystander-no-wallops",
+                format!("an operator's WALLOPS did not reach the +w bystander (role {})", sc.role),
             )
             .with_transcript(sc.log.iter().rev().take(40).rev().cloned().collect()));
         }
@@ -397,12 +420,17 @@ pub fn strat(max_lines: usize) -> impl Strategy<Value = FuzzCase> {
 
 pub fn run(ctx: &RunCtx) -> Vec<PartOutcome> {
     let n = ctx.tier.pick(12_000, 300_000);
-    vec![explore(ctx, "sessions", n, || strat(30), check)]
+    let mut parts = vec![explore(ctx, "sessions", n, || strat(30), check)];
+    if ctx.tier == Tier::Thorough {
+        parts.push(crate::fuzzdec::libfuzzer_part(ctx, "session", 30_000, 612));
+    }
+    parts
 }
 
 pub fn replay(part: &str, input: &Value) -> Option<Result<Result<(), Viol>, String>> {
     match part {
-        "sessions" | "libfuzzer" => Some(replay_input::<FuzzCase>(input, check)),
+        "sessions" => Some(replay_input::<FuzzCase>(input, check)),
+        "libfuzzer_session" => Some(crate::fuzzdec::replay_bytes_case(input)),
         _ => None,
     }
 }
